@@ -61,14 +61,14 @@ class C20(Check):
         "patches on one pair with a `once` among them, or a replace / remove between calls, or a batch; distinct = distinct spec."
     )
     assumptions = [
-        "notifications are judged only on endpoints without patches (passthrough with the same arguments / refusal); how a patched endpoint answers a notification is outside the statement",
+        "how a patched endpoint ANSWERS a notification is outside the statement (not judged); that the notification is recorded and takes its turn in the rotation is judged; on endpoints without patches notifications are passed through with the same arguments (text, flag, transport keyword arguments) / refused",
         "a user callback that raises propagates out of the patched transport; the call is still recorded and the patch rotation consumed",
         "replace / remove are only issued for existing patches / indices",
     ]
     trusted_base = ['deque model in checks/c20.py']
     required_classes = ['op/add', 'op/replace', 'op/remove-method', 'op/remove-endpoint', 'op/reset', 'op/call', 'op/batch', 'patch/result',
                         'patch/error', 'patch/callback', 'once', 'round-robin>=2', 'passthrough/on', 'passthrough/off', 'target/sync',
-                        'target/async', 'target/requests', 'unpatched-method', 'unpatched-endpoint', 'id/0', 'callback-raised', 'op/notify-unpatched-endpoint', 'patch/own-id']
+                        'target/async', 'target/requests', 'unpatched-method', 'unpatched-endpoint', 'id/0', 'callback-raised', 'op/notify-unpatched-endpoint', 'op/notify-patched-method', 'patch/own-id']
 
     def strategy(self, tier: str):
         s_ep = st.integers(0, 1)
@@ -127,7 +127,7 @@ class C20(Check):
             elif how == 'reset':
                 ops.append(['reset'])
             ops += [['add', e, m, p, False] for p in second]
-            ops += [['call', e, m, {'a': n}, 10 + n] for n in range(calls)]
+            ops += [['call', e, m, {'a': n}, 10 + n] if n != 1 else ['notify', e, m, [n]] for n in range(calls)]
             return ops
         s_scenario3 = st.builds(scenario3, s_ep, st.sampled_from([0, 1]), st.lists(s_patch, min_size=2, max_size=3), st.integers(1, 2),
                                 st.sampled_from(['remove-method', 'remove-endpoint', 'reset', 'once']), st.lists(s_patch, min_size=2, max_size=3), st.integers(3, 5))
@@ -143,6 +143,11 @@ class C20(Check):
             {'target': 'sync', 'passthrough': False, 'ops': [['add', 0, 0, r(1), False], ['call', 0, 0, [1], 0], ['call', 0, 0, None, '']]},
             {'target': 'async', 'passthrough': True, 'ops': [['add', 0, 0, r('a'), True], ['add', 0, 0, r('b'), False], ['add', 0, 0, {'kind': 'callback'}, False],
                                                                ['call', 0, 0, [1], 1], ['call', 0, 0, {'a': 1}, 2], ['call', 0, 0, [], 3], ['call', 0, 0, [1], 4], ['call', 1, 0, [1], 5]]},
+            # a notification to a patched method takes its turn in the rotation, uses up a `once` patch and is recorded
+            {'target': 'sync', 'passthrough': False, 'ops': [['add', 0, 0, r('A'), True], ['add', 0, 0, r('B'), False], ['add', 0, 0, {'kind': 'callback'}, False],
+                                                              ['notify', 0, 0, [7]], ['call', 0, 0, [1], 1], ['notify', 0, 0, {'a': 8}], ['call', 0, 0, [2], 2], ['call', 0, 0, [3], 3]]},
+            {'target': 'async', 'passthrough': True, 'ops': [['add', 1, 1, r('A'), False], ['add', 1, 1, r('B'), False], ['notify', 1, 1, None], ['call', 1, 1, [1], 1],
+                                                               ['notify', 1, 2, [1]], ['call', 1, 1, [2], 2], ['notify', 0, 0, [5]]]},
             {'target': 'sync', 'passthrough': False, 'ops': [['add', 0, 0, r('A'), False], ['add', 0, 0, r('B'), False], ['call', 0, 0, [1], 1], ['remove', 0, 0],
                                                               ['add', 0, 0, r('C'), False], ['add', 0, 0, r('D'), False], ['call', 0, 0, [1], 2], ['call', 0, 0, [1], 3], ['call', 0, 0, [1], 4]]},
             {'target': 'async', 'passthrough': True, 'ops': [['add', 1, 1, r('A'), False], ['add', 1, 1, r('B'), False], ['add', 1, 1, r('B2'), False], ['call', 1, 1, [1], 1],
@@ -218,9 +223,12 @@ class C20(Check):
                                                     or ('data' in ge and not jg.jeq(ge['data'], exp['error']['data']))):
                     discs.append(Disc("C20/reply-error", f"{what}: got {jg.short(got)} expected {jg.short(exp)} | {where}"))
 
+        # transport keyword arguments the client passes along with every request (request_args / per-call arguments)
+        tkw: Dict[str, Any] = {} if target == 'requests' else {'timeout': 3, 'headers': {'x-trace': 'abc'}}
+
         def transport(ci: int, text: str) -> Tuple[Any, Optional[BaseException]]:
             try:
-                r = clients[ci]._request(text, False)
+                r = clients[ci]._request(text, False, **tkw)
                 if is_async:
                     r = hm.run_coro(r)
                 return r, None
@@ -280,17 +288,34 @@ class C20(Check):
                     # how a patched endpoint answers a notification is outside the statement
                     ci = op[1]
                     ep = ENDPOINTS[ci]
-                    if ep in model or target == 'requests':
+                    if target == 'requests':
                         continue
                     d_: Dict[str, Any] = {'jsonrpc': '2.0', 'method': METHODS[op[2]]}
                     if op[3] is not None:
                         d_['params'] = op[3]
                     text = json.dumps(d_)
+                    if ep in model:
+                        # a notification to a PATCHED endpoint: how it is answered is outside the statement, but it is a call like any
+                        # other - recorded, and it takes its turn in the rotation (a `once` patch is used up by it)
+                        m_ = METHODS[op[2]]
+                        if m_ in model[ep]:
+                            if model[ep][m_][0]['patch']['kind'] == 'callback-raises':
+                                continue
+                            expect_element(ep, m_, op[3], None)
+                            classes.add('op/notify-patched-method')
+                        try:
+                            r_ = clients[ci]._request(text, True, **tkw)
+                            if is_async:
+                                hm.run_coro(r_)
+                        except BaseException:  # noqa
+                            pass
+                        evaluations += 1
+                        continue
                     classes.add('op/notify-unpatched-endpoint')
                     evaluations += 1
                     n_real = len(mocktargets.REAL_CALLS)
                     try:
-                        r_ = clients[ci]._request(text, True)
+                        r_ = clients[ci]._request(text, True, **tkw)
                         if is_async:
                             r_ = hm.run_coro(r_)
                         exc = None
@@ -298,7 +323,7 @@ class C20(Check):
                         r_, exc = None, e
                     if spec['passthrough']:
                         new = mocktargets.REAL_CALLS[n_real:]
-                        if exc is not None or new != [(ep, text, True)]:
+                        if exc is not None or new != [(ep, text, True, tkw)]:
                             discs.append(Disc("C20/passthrough-notification", f"real transport calls {new} exc {exc!r} for notification {text!r} | {where}"))
                     elif not isinstance(exc, ConnectionRefusedError):
                         discs.append(Disc("C20/unpatched-endpoint-not-refused", f"got {r_!r} / {exc!r} for notification {text!r} | {where}"))
@@ -327,7 +352,7 @@ class C20(Check):
                         classes.add('unpatched-endpoint')
                         if spec['passthrough']:
                             new = mocktargets.REAL_CALLS[n_real:]
-                            if exc is not None or new != [(ep, text, False)]:
+                            if exc is not None or new != [(ep, text, False, tkw)]:
                                 discs.append(Disc("C20/passthrough", f"real transport calls {new} exc {exc!r} for {text!r} | {where}"))
                             elif json.loads(got_text).get('real-transport') != ep:
                                 discs.append(Disc("C20/passthrough-reply", f"{got_text!r} | {where}"))
